@@ -140,9 +140,20 @@ class LocalClass:
         return False, None
 
 
+class _NoClass:
+    cdef = ast.ClassDef(name='record', bases=[], keywords=[], body=[], decorator_list=[])
+    scope, bases = {}, ()
+
+    def method(self, name):
+        return None
+
+    def class_attr(self, name, ev):
+        return False, None
+
+
 class Instance:
-    def __init__(self, cls):
-        self.cls, self.attrs = cls, {}
+    def __init__(self, cls=None, attrs=None):
+        self.cls, self.attrs = cls or _NoClass(), dict(attrs or {})
 
     def __repr__(self):
         return f'<{self.cls.cdef.name} {self.attrs}>'
